@@ -308,19 +308,21 @@ fn check_steps(_seed: u64) -> i32 {
             chk!("steps::ExtrapolatingCurve", format!("{{\"dmin\": [{}, {}, {}]}}", a, b, c), steps_ok(&ex, h));
         }
     }}}
-    // conversions: never smaller than the source, equal on the covered prefix (sources without bursts of 3+: KF6)
-    for t in 2..=7u64 { for j in 0..t { for n in 2..=6usize { for hz in [5u64, 11, 20] {
+    // conversions: never smaller than the source, equal on the covered prefix -- including bursty sources (jitter up to 3T)
+    // and cut-offs inside the burst (KF6, repaired)
+    for t in 1..=7u64 { for j in 0..=(3 * t) { for n in 1..=6usize { for hz in [0u64, 1, 5, 11, 20] {
         let sp = Sporadic::new(d(t), d(j));
         let desc = format!("{{\"T\": {}, \"J\": {}, \"njobs\": {}, \"horizon\": {}}}", t, j, n, hz);
         let cu = match guarded(|| Curve::from_arrival_bound(&sp, n)) { Ok(c) => c, Err(e) => return fail("conv::Curve::from_arrival_bound", desc, e, "no panic".into()) };
         let cu2 = match guarded(|| Curve::from_arrival_bound_until(&sp, d(hz))) { Ok(c) => c, Err(e) => return fail("conv::Curve::from_arrival_bound_until", desc, e, "no panic".into()) };
-        let acp = match guarded(|| arrival::ArrivalCurvePrefix::from_arrival_bound_until(&sp, d(hz))) { Ok(c) => c, Err(e) => return fail("conv::ArrivalCurvePrefix::from_arrival_bound_until", desc, e, "no panic".into()) };
+        // (a horizon of 0 is not a well-formed ArrivalCurvePrefix: its queries divide by the horizon)
+        let acp = match guarded(|| arrival::ArrivalCurvePrefix::from_arrival_bound_until(&sp, d(hz.max(1)))) { Ok(c) => c, Err(e) => return fail("conv::ArrivalCurvePrefix::from_arrival_bound_until", desc, e, "no panic".into()) };
         for delta in 0..=60u64 {
             let src = sp.number_arrivals(d(delta));
             for (name, got) in [("conv::Curve::from_arrival_bound", guarded(|| cu.number_arrivals(d(delta)))), ("conv::Curve::from_arrival_bound_until", guarded(|| cu2.number_arrivals(d(delta)))), ("conv::ArrivalCurvePrefix::from_arrival_bound_until", guarded(|| acp.number_arrivals(d(delta))))] {
                 match got { Ok(g) if g >= src => {}, other => return fail(name, format!("{{\"T\": {}, \"J\": {}, \"njobs\": {}, \"horizon\": {}, \"delta\": {}}}", t, j, n, hz, delta), format!("{:?}", other), format!(">= {} (the source)", src)) }
             }
-            if delta <= hz { let g = acp.number_arrivals(d(delta)); if g != src { return fail("conv::ArrivalCurvePrefix::from_arrival_bound_until", format!("{{\"T\": {}, \"J\": {}, \"horizon\": {}, \"delta\": {}}}", t, j, hz, delta), format!("{}", g), format!("{} (exact up to the horizon)", src)); } }
+            if delta <= hz.max(1) { let g = acp.number_arrivals(d(delta)); if g != src { return fail("conv::ArrivalCurvePrefix::from_arrival_bound_until", format!("{{\"T\": {}, \"J\": {}, \"horizon\": {}, \"delta\": {}}}", t, j, hz, delta), format!("{}", g), format!("{} (exact up to the horizon)", src)); } }
             if delta <= hz.max(1) && delta <= ud(cu2.min_distance(1000)) { let g = cu2.number_arrivals(d(delta)); if g != src { return fail("conv::Curve::from_arrival_bound_until", format!("{{\"T\": {}, \"J\": {}, \"horizon\": {}, \"delta\": {}}}", t, j, hz, delta), format!("{}", g), format!("{} (exact on the covered prefix)", src)); } }
         }
         // delta_min_iter is the dual of number_arrivals
